@@ -25,10 +25,10 @@ type Val struct {
 	B bool   `json:"b,omitempty"`
 }
 
-func Null() Val          { return Val{K: "n"} }
-func Int(i int64) Val    { return Val{K: "i", I: i} }
-func Str(s string) Val   { return Val{K: "s", S: []byte(s)} }
-func Bool(b bool) Val    { return Val{K: "b", B: b} }
+func Null() Val            { return Val{K: "n"} }
+func Int(i int64) Val      { return Val{K: "i", I: i} }
+func Str(s string) Val     { return Val{K: "s", S: []byte(s)} }
+func Bool(b bool) Val      { return Val{K: "b", B: b} }
 func (v Val) IsNull() bool { return v.K == "n" }
 
 // Go converts to the value the engine uses.
@@ -130,19 +130,19 @@ const (
 )
 
 type Stmt struct {
-	Kind     string     `json:"kind"`
-	DB       string     `json:"db,omitempty"`
-	Table    string     `json:"table,omitempty"`
-	Cols     []Col      `json:"cols,omitempty"`
-	ColNames []string   `json:"colnames,omitempty"`
-	Rows     [][]Val    `json:"rows,omitempty"`
-	Set      []SetItem  `json:"set,omitempty"`
-	Where    *Cond      `json:"where,omitempty"`
-	ViaText  bool       `json:"text,omitempty"`
+	Kind     string    `json:"kind"`
+	DB       string    `json:"db,omitempty"`
+	Table    string    `json:"table,omitempty"`
+	Cols     []Col     `json:"cols,omitempty"`
+	ColNames []string  `json:"colnames,omitempty"`
+	Rows     [][]Val   `json:"rows,omitempty"`
+	Set      []SetItem `json:"set,omitempty"`
+	Where    *Cond     `json:"where,omitempty"`
+	ViaText  bool      `json:"text,omitempty"`
 	// LitStyle: how integer literals are written in SQL text: 0 plain, 1 one
 	// leading zero ("010" is ten), 2 several leading zeros
-	LitStyle int `json:"lit_style,omitempty"`
-	SQL      string     `json:"sql,omitempty"`
+	LitStyle int    `json:"lit_style,omitempty"`
+	SQL      string `json:"sql,omitempty"`
 }
 
 // Directive: something the simulator does at a yield point.
@@ -184,19 +184,20 @@ type ImageSel struct {
 }
 
 type Knobs struct {
-	CacheCap     int  `json:"cache_cap"`               // 0 = default (10000)
-	LRUReverse   bool `json:"lru_reverse,omitempty"`   // order in which a flush leaves its pages in the recency list
-	ForceFlush   bool `json:"force_flush,omitempty"`   // enforce C16's precondition: tick at a boundary when dirty pages near capacity
-	FlushMargin  int  `json:"flush_margin,omitempty"`  // ... i.e. when dirty >= capacity - margin (0 = 10)
-	CacheOnly    bool `json:"cache_only,omitempty"`
+	CacheCap    int   `json:"cache_cap"`              // 0 = default (10000)
+	LRUReverse  bool  `json:"lru_reverse,omitempty"`  // order in which a flush leaves its pages in the recency list
+	ForceFlush  bool  `json:"force_flush,omitempty"`  // enforce C16's precondition: tick at a boundary when dirty pages near capacity
+	FlushMargin int   `json:"flush_margin,omitempty"` // ... i.e. when dirty >= capacity - margin (0 = 10)
+	CacheOnly   bool  `json:"cache_only,omitempty"`
+	PressureAt  int64 `json:"pressure_at,omitempty"` // main timeline: at this cache event every other clean resident page is marked dirty (cache pressure fault)
 	// BiasKey / BiasLSN: right after CREATE DATABASE the counters in the file
 	// header are raised to these values (as if a long history lay behind), so
 	// that row ids and LSNs cross 2^8, 2^16, 2^24, 2^32 boundaries within a short run
-	BiasKey uint32 `json:"bias_key,omitempty"`
-	BiasLSN uint64 `json:"bias_lsn,omitempty"`    // C15 with ticks withheld: only the cache monitor and O-live are evaluated
-	CheckEvery   int  `json:"check_every,omitempty"`   // full contents check every k statements (0/1 = every statement)
-	TreeEvery    int  `json:"tree_every,omitempty"`    // tree walk every k statements (0 = never)
-	NoAutoRecheck bool `json:"-"`
+	BiasKey       uint32 `json:"bias_key,omitempty"`
+	BiasLSN       uint64 `json:"bias_lsn,omitempty"`    // C15 with ticks withheld: only the cache monitor and O-live are evaluated
+	CheckEvery    int    `json:"check_every,omitempty"` // full contents check every k statements (0/1 = every statement)
+	TreeEvery     int    `json:"tree_every,omitempty"`  // tree walk every k statements (0 = never)
+	NoAutoRecheck bool   `json:"-"`
 }
 
 type Plan struct {
@@ -235,7 +236,7 @@ type Violation struct {
 	Chain []map[string]string `json:"chain,omitempty"`
 	// SelChain: the resolved (explicit) selectors of the images on ImgPath
 	SelChain []ImageSel `json:"sel_chain,omitempty"`
-	StmtIdx  int               `json:"stmt_idx"`
+	StmtIdx  int        `json:"stmt_idx"`
 }
 
 // Signature is the canonical string of property+oracle+features.
